@@ -48,12 +48,18 @@ rc2, out2 = demo_run()
 obs['demo_without_patch'] = 'PASS (as required)' if rc2 == 0 else 'FAIL (unexpected): ' + out2[-400:]
 os.remove(demo_dst)
 # against the check
-rc, out = sh('git -C /repo apply %s' % patch, V); assert rc == 0, out
+# SEED_IN_WT=1: while other work is using /repo, run the check against the scratch
+# worktree with the patch applied (VERIF_REPO) instead of patching /repo itself;
+# tools/rerun_seeds.py later re-runs every recorded seed against /repo proper.
+target = wt if os.environ.get('SEED_IN_WT') else '/repo'
+rc, out = sh('git -C %s apply %s' % (target, patch), V); assert rc == 0, out
 t0 = time.time()
 try:
+    env['VERIF_REPO'] = target
     rc3, out3 = sh('bin/check %s %s' % (prop, ' '.join(extra)), V, timeout=3600)
 finally:
-    sh('git -C /repo checkout -- .', V)
+    sh('git -C %s checkout -- .' % target, V)
+obs['check_target'] = target
 viol = [l for l in out3.splitlines() if l.startswith('VIOLATION') or 'violated:' in l]
 obs['check_cmd'] = 'bin/check %s %s' % (prop, ' '.join(extra))
 obs['check_exit'] = rc3
